@@ -41,7 +41,7 @@ func TestSim(t *testing.T)  { sim.RunTest(t) }
 
 func gen(a hx.Args) {
 	r := hx.NewRng(a.Seed)
-	n := a.N(60, 1500)
+	n := a.N(300, 3000)
 	for i := 0; i < n; i++ {
 		maxrec := hx.Pick(r, []int{1, 2, 3, 5, 8, 20, 50})
 		maxbytes := 0
